@@ -604,3 +604,261 @@ Proof.
     rewrite Ec. apply (ev_offset _ _ _ G1). }
   split; [congruence|]. split; lia.
 Qed.
+
+(* ---- timer exactness, composed: scripted main future, tick of whole ms -------------------- *)
+
+Lemma mk_tag_inj tid k aux tid' k' aux' :
+  k < 1000 -> k' < 1000 -> aux < 4 -> aux' < 4 ->
+  mk_tag tid k aux = mk_tag tid' k' aux' -> tid = tid' /\ k = k' /\ aux = aux'.
+Proof. unfold mk_tag. intros. lia. Qed.
+
+Lemma interval_events_aux tid k c p n : forall i tag x,
+  In (tag, x) (interval_events tid k c p i n) -> tag = mk_tag tid k 3.
+Proof.
+  induction n as [|n IH]; intros i tag x H; cbn in H; [destruct H|].
+  destruct H as [H|H]; [now inversion H|eauto].
+Qed.
+
+Lemma task_events_snd_indep : forall ops tid k tid' k' c,
+  snd (task_events tid k c ops) = snd (task_events tid' k' c ops).
+Proof.
+  induction ops as [|o ops IH]; intros tid k tid' k' c; cbn; [reflexivity|].
+  destruct o as [d| |lim inn|p n].
+  - apply IH.
+  - pose proof (IH tid (k + 1) tid' (k' + 1) c) as H.
+    destruct (task_events tid (k + 1) c ops), (task_events tid' (k' + 1) c ops); exact H.
+  - match goal with |- context [task_events tid (k + 1) ?x ops] =>
+      pose proof (IH tid (k + 1) tid' (k' + 1) x) as H;
+      destruct (task_events tid (k + 1) x ops), (task_events tid' (k' + 1) x ops); exact H end.
+  - match goal with |- context [task_events tid (k + 1) ?x ops] =>
+      pose proof (IH tid (k + 1) tid' (k' + 1) x) as H;
+      destruct (task_events tid (k + 1) x ops), (task_events tid' (k' + 1) x ops); exact H end.
+Qed.
+
+(* an `obs` record of a task comes from the Obs op at that index and carries the
+   clock the task has when it reaches that op *)
+Lemma task_events_obs : forall ops tid k0 c0 k c,
+  k0 + N.of_nat (length ops) <= 1000 -> k < 1000 ->
+  In (mk_tag tid k 0, c) (fst (task_events tid k0 c0 ops)) ->
+  exists j, k = k0 + N.of_nat j /\ nth_error ops j = Some Obs /\
+            c = snd (task_events tid k0 c0 (firstn j ops)).
+Proof.
+  induction ops as [|o ops IH]; intros tid k0 c0 k c Hb Hlt Hin; [destruct Hin|].
+  cbn [length] in Hb.
+  assert (Hb' : k0 + 1 + N.of_nat (length ops) <= 1000) by lia.
+  assert (Step : forall c1, In (mk_tag tid k 0, c) (fst (task_events tid (k0 + 1) c1 ops)) ->
+            exists j, k = k0 + 1 + N.of_nat j /\ nth_error ops j = Some Obs /\
+                      c = snd (task_events tid (k0 + 1) c1 (firstn j ops)))
+    by (intros c1 H; eapply IH; eauto).
+  cbn [task_events] in Hin. destruct o as [d| |lim inn|p n].
+  - destruct (Step _ Hin) as (j & A & B & C). exists (S j). split; [lia|]. split; [exact B|].
+    cbn [firstn task_events]. exact C.
+  - destruct (task_events tid (k0 + 1) c0 ops) as [l e] eqn:E. cbn [fst] in Hin.
+    destruct Hin as [Hin|Hin].
+    + inversion Hin as [[Ht Hc]]. apply mk_tag_inj in Ht as (_ & Hk & _); try lia.
+      exists 0%nat. split; [lia|]. split; [reflexivity|]. cbn. congruence.
+    + destruct (Step c0) as (j & A & B & C); [now rewrite E|].
+      exists (S j). split; [lia|]. split; [exact B|]. cbn [firstn task_events].
+      destruct (task_events tid (k0 + 1) c0 (firstn j ops)). exact C.
+  - set (c' := N.min (cms (c0 + inn)) (cms (c0 + lim))) in *.
+    destruct (task_events tid (k0 + 1) c' ops) as [l e] eqn:E. cbn [fst] in Hin.
+    destruct Hin as [Hin|Hin].
+    + inversion Hin as [[Ht Hc]]. apply mk_tag_inj in Ht as (_ & _ & Ha); try lia;
+        destruct (cms (c0 + inn) <=? cms (c0 + lim)); lia.
+    + destruct (Step c') as (j & A & B & C); [now rewrite E|].
+      exists (S j). split; [lia|]. split; [exact B|]. cbn [firstn task_events]. fold c'.
+      destruct (task_events tid (k0 + 1) c' (firstn j ops)). exact C.
+  - set (c' := match n with O => c0 | S m => cms (c0 + N.of_nat m * p) end) in *.
+    destruct (task_events tid (k0 + 1) c' ops) as [l e] eqn:E. cbn [fst] in Hin.
+    apply in_app_or in Hin as [Hin|Hin].
+    + apply interval_events_aux in Hin. apply mk_tag_inj in Hin as (_ & _ & Ha); lia.
+    + destruct (Step c') as (j & A & B & C); [now rewrite E|].
+      exists (S j). split; [lia|]. split; [exact B|]. cbn [firstn task_events]. fold c'.
+      destruct (task_events tid (k0 + 1) c' (firstn j ops)). exact C.
+Qed.
+
+Lemma task_events_tid : forall ops tid k0 c0 tag c,
+  In (tag, c) (fst (task_events tid k0 c0 ops)) ->
+  exists k aux, tag = mk_tag tid k aux /\ k0 <= k < k0 + N.of_nat (length ops) /\ aux < 4.
+Proof.
+  induction ops as [|o ops IH]; intros tid k0 c0 tag c Hin; [destruct Hin|].
+  cbn [task_events length] in *.
+  assert (Step : forall c1, In (tag, c) (fst (task_events tid (k0 + 1) c1 ops)) ->
+            exists k aux, tag = mk_tag tid k aux /\ k0 <= k < k0 + N.of_nat (S (length ops)) /\ aux < 4).
+  { intros c1 H. destruct (IH _ _ _ _ _ H) as (k & aux & A & B & C). exists k, aux. repeat split; auto; lia. }
+  destruct o as [d| |lim inn|p n].
+  - eauto.
+  - destruct (task_events tid (k0 + 1) c0 ops) as [l e] eqn:E. cbn [fst] in Hin.
+    destruct Hin as [Hin|Hin]; [inversion Hin; exists k0, 0; repeat split; lia|].
+    apply (Step c0). now rewrite E.
+  - destruct (task_events tid (k0 + 1) _ ops) as [l e] eqn:E. cbn [fst] in Hin.
+    destruct Hin as [Hin|Hin].
+    + inversion Hin. eexists k0, _. split; [reflexivity|]. split; [lia|].
+      destruct (cms (c0 + inn) <=? cms (c0 + lim)); lia.
+    + eapply Step. now rewrite E.
+  - destruct (task_events tid (k0 + 1) _ ops) as [l e] eqn:E. cbn [fst] in Hin.
+    apply in_app_or in Hin as [Hin|Hin].
+    + apply interval_events_aux in Hin. exists k0, 3. repeat split; auto; lia.
+    + eapply Step. now rewrite E.
+Qed.
+
+Lemma tasks_events_tid : forall ts tid0 tag c,
+  In (tag, c) (tasks_events tid0 ts) ->
+  exists tid k aux, tag = mk_tag tid k aux /\ tid0 <= tid /\ k < N.of_nat (length (t_ops (nth (N.to_nat (tid - tid0)) ts {| t_ops := []; t_panics := false |}))) + 1 /\ aux < 4.
+Proof.
+  induction ts as [|t ts IH]; intros tid0 tag c Hin; [destruct Hin|].
+  cbn [tasks_events] in Hin. apply in_app_or in Hin as [Hin|Hin].
+  - destruct (task_events_tid _ _ _ _ _ _ Hin) as (k & aux & A & B & C).
+    exists tid0, k, aux. rewrite N.sub_diag. cbn. repeat split; auto; lia.
+  - destruct (IH _ _ _ Hin) as (tid & k & aux & A & B & C & D).
+    exists tid, k, aux. repeat split; auto; try lia.
+    replace (N.to_nat (tid - tid0)) with (S (N.to_nat (tid - (tid0 + 1)))) by lia. exact C.
+Qed.
+
+Definition small_script (sc : script) : Prop :=
+  (length (s_main sc) < 1000)%nat /\
+  Forall (fun t => (length (t_ops t) < 999)%nat) (s_tasks sc).
+
+Lemma tasks_events_small : forall ts tid0 tag c,
+  Forall (fun t => (length (t_ops t) < 999)%nat) ts ->
+  In (tag, c) (tasks_events tid0 ts) ->
+  exists tid k aux, tag = mk_tag tid k aux /\ tid0 <= tid /\ k < 1000 /\ aux < 4.
+Proof.
+  induction ts as [|t ts IH]; intros tid0 tag c Hs Hin; [destruct Hin|].
+  inversion Hs as [|? ? H1 H2]; subst.
+  cbn [tasks_events] in Hin. apply in_app_or in Hin as [Hin|Hin].
+  - destruct (task_events_tid _ _ _ _ _ _ Hin) as (k & aux & A & B & C).
+    exists tid0, k, aux. repeat split; auto; lia.
+  - destruct (IH _ _ _ H2 Hin) as (tid & k & aux & A & B & C & D).
+    exists tid, k, aux. repeat split; auto; lia.
+Qed.
+
+(* a clock read tagged as the k-th op of the main future is the Obs at index k
+   and carries the clock the main future has when it gets there *)
+Lemma main_obs_clock sc k c :
+  small_script sc -> k < 1000 -> In (mk_tag 0 k 0, c) (all_events sc) ->
+  exists j, k = N.of_nat j /\ nth_error (s_main sc) j = Some Obs /\
+            c = snd (task_events 0 0 0 (firstn j (s_main sc))).
+Proof.
+  intros (Hm & Ht) Hk Hin. unfold all_events in Hin.
+  apply in_app_or in Hin as [Hin|Hin]; [|apply in_app_or in Hin as [Hin|Hin]].
+  - destruct (task_events_obs (s_main sc) 0 0 0 k c ltac:(lia) Hk Hin) as (j & A & B & C).
+    exists j. split; [lia|]. split; [exact B|exact C].
+  - exfalso. assert (Hc : exists c', (mk_tag 0 k 0, c) = (end_tag, c')).
+    { destruct (s_end sc); cbn in Hin; try contradiction; destruct Hin as [Hin|[]]; eauto. }
+    destruct Hc as [c' Hc]. inversion Hc as [[Hg Hc2]]. unfold end_tag in Hg.
+    apply mk_tag_inj in Hg as (Hx & _); lia.
+  - exfalso. destruct (tasks_events_small _ _ _ _ Ht Hin) as (tid & k' & aux & A & B & C & D).
+    apply mk_tag_inj in A as (E & _); lia.
+Qed.
+
+Lemma reads_event tk sc j tag off :
+  0 < tk -> In (tag, off) (reads (sw_of_script tk sc) j) ->
+  (tag = ticker_tag /\ off = 0) \/ In (tag, N.of_nat j * wtick_of tk + off) (all_events sc).
+Proof.
+  intros Ht H. cbn [reads sw_of_script] in H. apply in_app_or in H as [H|H].
+  - destruct (s_ticker sc); [|destruct H]. destruct H as [H|[]]. inversion H. now left.
+  - right. apply in_map_iff in H as ((tg & clk) & E & H). apply filter_In in H as [Hin Hj]. cbn in *.
+    inversion E; subst tag off. apply N.eqb_eq in Hj.
+    pose proof (wtick_pos tk Ht) as Hw.
+    pose proof (N.div_mod clk (wtick_of tk) ltac:(lia)) as D. rewrite Hj in D.
+    replace (N.of_nat j * wtick_of tk + (clk - N.of_nat j * wtick_of tk)) with clk; [exact Hin|].
+    rewrite (N.mul_comm (N.of_nat j)). set (x := wtick_of tk * N.of_nat j) in *.
+    set (m := clk mod wtick_of tk) in *. lia.
+Qed.
+
+Lemma scripted_read_clock s order s' res log o r sc k :
+  step s order = (s', res, log) -> In o log ->
+  nth_error (rts s) (o_host o) = Some r ->
+  sw r (pred (starts r)) = sw_of_script (tick s) sc ->
+  wtick s = wtick_of (tick s) -> 0 < tick s -> small_script sc ->
+  o_tag o = mk_tag 0 k 0 -> k < 1000 ->
+  exists j, k = N.of_nat j /\ nth_error (s_main sc) j = Some Obs /\
+            o_clk o = snd (task_events 0 0 0 (firstn j (s_main sc))) /\
+            o_epoch o = epoch s + o_sim o.
+Proof.
+  intros H Ho Er Esw Hw Ht Hs Htag Hk.
+  destruct (step_log_sound _ _ _ _ _ _ H Ho) as (r0 & A & B & C).
+  rewrite Er in A. inversion A; subst r0.
+  unfold mk_reads in C. apply in_map_iff in C as ((tag & off) & E & Hto).
+  unfold cur_sw in Hto. rewrite Esw in Hto.
+  assert (Eo : o_tag o = tag /\ o_clk o = N.of_nat (polls r) * wtick s + off /\
+               o_epoch o = epoch s + o_sim o) by (rewrite <- E; cbn; auto).
+  destruct Eo as (E1 & E2 & E3). rewrite Htag in E1. subst tag.
+  destruct (reads_event _ _ _ _ _ Ht Hto) as [[Hg _]|Hin].
+  - exfalso. unfold ticker_tag in Hg. apply mk_tag_inj in Hg as (Hc & _); lia.
+  - rewrite <- Hw, <- E2 in Hin.
+    destruct (main_obs_clock sc k (o_clk o) Hs Hk Hin) as (j & J1 & J2 & J3). eauto.
+Qed.
+
+Lemma firstn_app_exact {A} (l1 l2 : list A) : firstn (length l1) (l1 ++ l2) = l1.
+Proof. rewrite firstn_app, Nat.sub_diag, firstn_all. cbn. apply app_nil_r. Qed.
+
+(* THE timer-exactness statement: whole-ms tick, scripted main future
+   `.. obs; sleep(d); obs ..` with d whole ms, any history in between without a
+   failed step and without a bounce of this host (crashes / bounces of others,
+   registrations, runs allowed): the second read sees elapsed(), sim_elapsed()
+   and since_epoch() exactly d after the first. *)
+Theorem c05_timer_exact_scripted_lemma
+  s1 ord1 s1' res1 log1 o1 es ord2 s2' res2 log2 o2 h r1 scs pre d post :
+  lockstep s1 -> wtick s1 = wtick_of (tick s1) -> aligned (tick s1) -> 0 < tick s1 ->
+  step s1 ord1 = (s1', res1, log1) -> In o1 log1 -> o_host o1 = h ->
+  nth_error (rts s1) h = Some r1 ->
+  (forall inc, sw r1 inc = sw_of_script (tick s1) (scs inc)) ->
+  small_script (scs (o_inc o1)) ->
+  s_main (scs (o_inc o1)) = pre ++ Obs :: Sleep d :: Obs :: post -> aligned d ->
+  o_tag o1 = mk_tag 0 (N.of_nat (length pre)) 0 ->
+  o_tag o2 = mk_tag 0 (N.of_nat (length pre) + 2) 0 ->
+  no_failed s1 (Step ord1 :: es) -> no_bounce_of h es ->
+  step (exec s1' es) ord2 = (s2', res2, log2) -> In o2 log2 -> o_host o2 = h ->
+  o_elapsed o2 = o_elapsed o1 + d /\ o_sim o2 = o_sim o1 + d /\ o_epoch o2 = o_epoch o1 + d.
+Proof.
+  intros Hl Hw Hal Ht E1 Ho1 Hh1 Er1 Hsw Hsm Hmain Hd Tg1 Tg2 Hnf Hnb E2 Ho2 Hh2.
+  assert (Hw' : wtick s1 = tick s1) by (rewrite Hw; now apply wtick_whole).
+  destruct (c05_timer_lockstep_lemma _ _ _ _ _ _ _ _ _ _ _ _ _ Hl Hw' E1 Ho1 Hh1 Hnf Hnb E2 Ho2 Hh2)
+    as (Hinc & Hel & Hsim).
+  set (sc := scs (o_inc o1)) in *.
+  assert (Hlen : (length pre + 3 <= length (s_main sc))%nat)
+    by (rewrite Hmain, app_length; cbn; lia).
+  destruct Hsm as (Hm & Htk).
+  (* first read *)
+  destruct (step_log_sound _ _ _ _ _ _ E1 Ho1) as (ra & Aa & _ & Ca).
+  rewrite Hh1, Er1 in Aa. inversion Aa; subst ra.
+  assert (Hinc1 : o_inc o1 = pred (starts r1)).
+  { unfold mk_reads in Ca. apply in_map_iff in Ca as (x & <- & _). reflexivity. }
+  destruct (scripted_read_clock _ _ _ _ _ o1 r1 sc _ E1 Ho1 ltac:(now rewrite Hh1)
+              ltac:(rewrite <- Hinc1; apply Hsw) Hw Ht (conj Hm Htk) Tg1 ltac:(lia))
+    as (j1 & J1 & _ & K1 & P1).
+  apply Nat2N.inj in J1. subst j1.
+  rewrite Hmain, firstn_app_exact in K1.
+  (* second read: same incarnation, same script *)
+  destruct (step_params _ _ _ _ _ E1) as (Q1 & Q2 & _ & Q4 & _).
+  destruct (exec_params es s1') as (P2 & P3).
+  destruct (step_evolves _ _ _ _ _ E1) as (_ & R). destruct (R h r1 Er1) as (r1' & F1 & G1).
+  destruct (base_stable_exec h es s1' r1' F1 Hnb) as (r2 & F2 & _ & G3 & G4).
+  assert (Hst : starts r2 = starts r1) by (rewrite G3; apply (ev_starts _ _ _ G1)).
+  assert (Hsw2 : sw r2 = sw r1) by (rewrite G4; apply (ev_sw _ _ _ G1)).
+  assert (Hep : epoch (exec s1' es) = epoch s1).
+  { rewrite <- Q4. clear. generalize s1' as s. induction es as [|e t IH]; intro s; cbn; auto.
+    rewrite IH. now destruct (c05_monotone_lemma s e) as (_ & M & _). }
+  destruct (scripted_read_clock _ _ _ _ _ o2 r2 sc (N.of_nat (length pre) + 2) E2 Ho2
+              ltac:(now rewrite Hh2)) as (j2 & J2 & _ & K2 & P2').
+  { rewrite Hst, Hsw2, <- Hinc1, P2, Q1. apply Hsw. }
+  { rewrite P2, P3, Q1, Q2. exact Hw. }
+  { rewrite P2, Q1. exact Ht. }
+  { exact (conj Hm Htk). }
+  { exact Tg2. }
+  { lia. }
+  assert (j2 = (length pre + 2)%nat) by lia. subst j2.
+  replace (firstn (length pre + 2) (s_main sc)) with (pre ++ [Obs; Sleep d]) in K2.
+  2:{ rewrite Hmain. replace (pre ++ Obs :: Sleep d :: Obs :: post)
+        with ((pre ++ [Obs; Sleep d]) ++ Obs :: post) by (now rewrite <- app_assoc).
+      replace (length pre + 2)%nat with (length (pre ++ [Obs; Sleep d])) by (rewrite app_length; cbn; lia).
+      now rewrite firstn_app_exact. }
+  rewrite task_events_app in K2.
+  destruct (task_events 0 0 0 pre) as [l1 c1] eqn:Ep. cbn [snd] in K1.
+  destruct (task_events_aligned pre 0 0 0 aligned_0) as (_ & Ac). rewrite Ep in Ac. cbn [snd] in Ac.
+  cbn [task_events snd] in K2. rewrite (cms_aligned (c1 + d)) in K2 by (now apply aligned_add).
+  cbn [snd] in K2.
+  repeat split; lia.
+Qed.
